@@ -50,6 +50,17 @@ def _is_write(node):
         return None          # list.remove, str.replace, dict.copy, ...
     if last == "print":
         return None
+    if last in ("mkstemp", "mkdtemp", "NamedTemporaryFile"):
+        # a scratch file is allowed to escape the dry-run guards only because it is made in the system's temporary
+        # directory, outside every stack: where it is made is part of the site
+        pos = {"mkstemp": 2, "mkdtemp": 2, "NamedTemporaryFile": 7}[last]
+        where = node.args[pos] if len(node.args) > pos else None
+        for k in node.keywords:
+            if k.arg == "dir":
+                where = k.value
+        if where is not None and not (isinstance(where, ast.Constant) and where.value is None):
+            return "%s[dir=%s]" % (txt, ast.unparse(where))
+        return "%s[dir=system default]" % txt
     return txt
 
 
